@@ -219,18 +219,21 @@ structure Gw where
   alive : Bool
   /-- it reaches the limiter server -/
   net : Bool
-  /-- `clientSets.leaderReady[shard]`: the heartbeat status shared by all its `upstreamLimiter`s (in the loop every
-      shard is heartbeated in the same round with the same outcome, so one status stands for all shards) -/
-  hbs : Option RemoteLimiter.HB
-  /-- upstream ↦ the state of its `upstreamLimiter` (C09) -/
+  /-- upstream ↦ the state of its `upstreamLimiter` (C09). The process keeps one for every upstream of the loop from its
+      start (the real one is created by the first schema sync, sharing the client set: it sees the heartbeat outcomes
+      recorded before — in the model every limiter sees every heartbeat outcome from the start of the process; in the
+      loop every shard is heartbeated in the same round with the same outcome) -/
   ups : List (Nat × RemoteLimiter.State)
   /-- monitor (ghost): the upstreams for which this process applied an answer since its view of the global limit last
       changed ("the gateway applied the last answer") -/
   fresh : List Nat
 deriving Repr
 
-/-- the state of the `upstreamLimiter` for `u`; one that was never touched is fresh, but sees the shared client set -/
-def Gw.st (nShards : Nat) (g : Gw) (u : Nat) : RemoteLimiter.State := (aget g.ups u).getD { gwInit nShards with hb := g.hbs }
+/-- the limiters of a process that has just started: one per upstream of the loop -/
+def freshUps (nShards nUp : Nat) : List (Nat × RemoteLimiter.State) := (List.range nUp).map (fun u => (u, gwInit nShards))
+
+/-- the state of the `upstreamLimiter` for `u` (an upstream outside the loop: a fresh one, nothing ever happens to it) -/
+def Gw.st (nShards : Nat) (g : Gw) (u : Nat) : RemoteLimiter.State := (aget g.ups u).getD (gwInit nShards)
 
 /-- one C09 step (a panic — impossible for the schemas of the loop, see `KG.Lemmas.LimiterLoop.step_schema` /
     `step_answer` / `step_hb` — keeps the state) -/
@@ -239,15 +242,15 @@ def stepOr (st : RemoteLimiter.State) (op : RemoteLimiter.Op) : RemoteLimiter.St
   | .ok st' => st'
   | .error _ => st
 
-/-- one C09 step of the `upstreamLimiter` for `u` -/
+/-- one C09 step of the `upstreamLimiter` for `u` (an upstream outside the loop is ignored) -/
 def Gw.apply (nShards : Nat) (g : Gw) (u : Nat) (op : RemoteLimiter.Op) : Gw :=
-  { g with ups := aset g.ups u (stepOr (g.st nShards u) op) }
+  match aget g.ups u with
+  | some st => { g with ups := aset g.ups u (stepOr st op) }
+  | none => g
 
 /-- one heartbeat outcome (`setLeaderStatus`) seen by every `upstreamLimiter` of the gateway: C09's `.hb` step -/
 def Gw.heartbeat (g : Gw) (ok : Bool) (now : Int) : Gw :=
-  { g with
-    hbs := some (RemoteLimiter.hbStep (g.hbs.getD {}) ok now)
-    ups := g.ups.map (fun p => (p.1, stepOr p.2 (.hb ok now false))) }
+  { g with ups := g.ups.map (fun p => (p.1, stepOr p.2 (.hb ok now false))) }
 
 /-- the schema a gateway syncs: local limit `l`, global limit `t`, strategy `globalAllocate` -/
 def mkSchema (l t : Int) : RemoteLimiter.Schema := { strategy := .alloc, mi := some l, gmi := some t }
@@ -282,14 +285,17 @@ def enforced (st : RemoteLimiter.State) : Option Int := (RemoteLimiter.observe g
 
 structure State where
   nShards : Nat
+  /-- the upstreams of the loop are `0 … nUp−1` -/
+  nUp : Nat
   srv : Server
   gws : List Gw
 deriving Repr
 
-def init (nShards nGw : Nat) (k8s : Bool) : State :=
+def init (nShards nGw nUp : Nat) (k8s : Bool) : State :=
   { nShards := nShards
+    nUp := nUp
     srv := ⟨k8s, [], [], [], [], [], []⟩
-    gws := (List.range nGw).map (fun i => ⟨i, true, true, none, [], []⟩) }
+    gws := (List.range nGw).map (fun i => ⟨i, true, true, freshUps nShards nUp, []⟩) }
 
 inductive Op
   /-- the UpstreamCluster object of `u` in the limiter server's lister now configures global limit `t` -/
@@ -380,7 +386,7 @@ def step (s : State) : Op → State
   | .ret g id =>
     match s.gw g with
     | none => s
-    | some x => s.setGw g { x with id := id, alive := true, hbs := none, ups := [], fresh := [] }
+    | some x => s.setGw g { x with id := id, alive := true, ups := freshUps s.nShards s.nUp, fresh := [] }
 
 def run (s : State) (ops : List Op) : State := ops.foldl (step shardOf) s
 
